@@ -67,6 +67,15 @@ def stepRadius (d : RD) (toks : List String) (impl : String) : RD × Res :=
     let out : Res := { model := s!"{first} cache={cs}", monitor := mon,
                        tags := ["revent", kind, s!"type{t}", if Rc.applies rep then "applied" else "ignored", if member then "member" else "stranger"] }
     ({ d with cache := cache' }, out)
+  | some "raddenr" =>
+    -- AddEnr of a record: a node that enters the table by this call starts with the maximum radius; a node that was in the
+    -- table already keeps what it last reported
+    let entered := kv toks "before" == "none" && kv toks "member" == "entry"
+    let cache' := if entered then some (String.ofList (List.replicate 64 'f')) else d.cache
+    let cs := match cache' with | some h => h | none => "none"
+    let out : Res := { model := s!"cache={cs}", monitor := if impl != s!"cache={cs}" && !entered then ["radius_is_last_report"] else [],
+                       tags := ["raddenr", if entered then "entered" else "known"] }
+    ({ d with cache := cache' }, out)
   | some "rwire" =>
     -- one ping through the real handler (asynchronous processing, polled): applied iff member and supported type
     let t := kvNat toks "type"
